@@ -11,7 +11,7 @@ SPEC = {
         {"kind": "PAIR", "type": "pcase", "eval": "check_case", "per_shard": 40},
     ],
     "classes": {1: "secret-in-list", 2: "secret-under-untyped-inline-fragment", 3: "secret-as-variable-default"},
-    "n_quick": 600, "n_thorough": 10000,
+    "n_quick": 600, "n_thorough": 2400,
     "level": "proof",
     "what_violation": "a secret value changes (appears in) the query text produced for logging/tracing",
     "rule": ("pairs of requests identical except for the values supplied at secret positions (sentinels in every "
